@@ -8,6 +8,9 @@ from .stmts import _dotted, MUTATORS
 from .exprs import _join_ty, _same_heap
 
 
+_REC_CACHE = {}
+
+
 class SpecFn:
     def __init__(self, name, node, params, ret, opaque=False, native=None):
         self.name = name
@@ -38,10 +41,55 @@ class CallMixin:
                 st.pc[:] = tmp.pc
                 yield st, v
                 return
+            if f.id == 'unfold':
+                # unfold(f(args)): the defining equation of an opaque (non-recursive) spec function at these arguments
+                call = e.args[0]
+                if not (isinstance(call, ast.Call) and isinstance(call.func, ast.Name) and call.func.id in self.reg.specs):
+                    raise Unsupported('unfold() needs a spec function application')
+                sf = self.reg.specs[call.func.id]
+                if sf.node is None or sf.opaque or _is_recursive(sf):
+                    raise Unsupported('unfold() of an opaque/recursive spec function')
+                args = [self.ev1(a, st) for a in call.args]
+                ptys = [parse_type(t, self.reg.enums) for _, t in sf.params]
+                rty = parse_type(sf.ret, self.reg.enums)
+                cargs = [self.coerce(a, t, st) for a, t in zip(args, ptys)]
+                saved = self.cur_opaque
+                self.cur_opaque = saved - {sf.name}
+                try:
+                    body = self._expand_spec(sf, cargs, rty, st)
+                finally:
+                    self.cur_opaque = saved
+                uf = self.spec_apply(sf, args, st)
+                yield st, V(BOOL, uf.t == body.t)
+                return
+            if f.id == 'entry':
+                ent = st.env.get('$entry')
+                if ent is None or not isinstance(e.args[0], ast.Name):
+                    raise Unsupported('entry(x) outside a loop body')
+                yield st, ent.t[e.args[0].id]
+                return
             if f.id == 'implies':
                 a = self.truthy(self.ev1(e.args[0], st))
                 b = self.truthy(self.ev1(e.args[1], st))
                 yield st, V(BOOL, z3.Implies(a, b))
+                return
+            if f.id == 'forall':
+                # forall('Str', lambda k: body): unbounded universal quantifier of the contract language
+                ty = parse_type(e.args[0].value, self.reg.enums)
+                lam = e.args[1]
+                if not isinstance(lam, ast.Lambda) or len(lam.args.args) != 1:
+                    raise Unsupported('forall needs a one-argument lambda')
+                bv = z3.Const(fresh_name('fa_' + lam.args.args[0].arg), ty.sort())
+                saved = dict(st.env)
+                st.env[lam.args.args[0].arg] = V(ty, bv)
+                base = len(st.pc)
+                try:
+                    body = self.truthy(self.ev1q(lam.body, st))
+                finally:
+                    st.env = saved
+                if len(st.pc) != base:
+                    raise Unsupported('forall body introduces facts')
+                yield st, V(BOOL, z3.ForAll([bv], body))
                 return
             if f.id == 're_match':
                 from .regex import to_z3
@@ -552,8 +600,17 @@ class CallMixin:
 
     # ------------------------------------------------------------------ spec functions
     def spec_decl(self, sf):
-        if sf.name in self.specfns:
-            return self.specfns[sf.name]
+        # the definition depends on which helper specs are opaque in the current contract
+        used = {n.func.id for n in ast.walk(sf.node) if isinstance(n, ast.Call) and isinstance(n.func, ast.Name)} \
+            if sf.node is not None else set()
+        okey = tuple(sorted(used & self.cur_opaque))
+        ckey = (sf.name, okey)
+        zname = sf.name if not okey else sf.name + '!o' + '_'.join(okey)
+        if ckey in self.specfns:
+            return self.specfns[ckey]
+        if ckey in _REC_CACHE and not (sf.opaque or sf.node is None):
+            self.specfns[ckey] = _REC_CACHE[ckey]      # z3 recursive definitions are global to the context
+            return self.specfns[ckey]
         ptys = [parse_type(t, self.reg.enums) for _, t in sf.params]
         rty = parse_type(sf.ret, self.reg.enums)
         htys = [self.any_field_ty(f) for f in sf.reads]
@@ -563,10 +620,10 @@ class CallMixin:
         sorts = [t.sort() for t in ptys] + hsorts + [rty.sort()]
         if sf.opaque or sf.node is None:
             f = z3.Function(sf.name, *sorts)
-            self.specfns[sf.name] = (f, ptys, rty)
-            return self.specfns[sf.name]
-        f = z3.RecFunction(sf.name, *sorts)
-        self.specfns[sf.name] = (f, ptys, rty)
+            self.specfns[ckey] = (f, ptys, rty)
+            return self.specfns[ckey]
+        f = z3.RecFunction(zname, *sorts)
+        self.specfns[ckey] = (f, ptys, rty)
         params = [z3.Const(f'{sf.name}!{n}', t.sort()) for (n, _), t in zip(sf.params, ptys)]
         hparams = [z3.Const(f'{sf.name}!H_{f}', hs) for f, hs in zip(sf.reads, hsorts)]
         st0 = State()
@@ -594,7 +651,8 @@ class CallMixin:
         for cnd, t in reversed(cases[:-1]):
             body = z3.If(cnd, t, body)
         z3.RecAddDefinition(f, params + hparams, body)
-        return self.specfns[sf.name]
+        _REC_CACHE[ckey] = self.specfns[ckey]
+        return self.specfns[ckey]
 
     def spec_apply(self, sf, args, st):
         """recursive spec functions are z3 recursive definitions; non-recursive ones are expanded in place
